@@ -95,7 +95,7 @@ def programs_for(sc: dict[str, Any]):
     return f
 
 
-def group_clauses(spec: dict[str, Any], audit: list[tuple[Any, ...]], got: dict[str, Any], final: bool) -> list[tuple[str, str]]:
+def group_clauses(spec: dict[str, Any], audit: list[tuple[Any, ...]], got: dict[str, Any], final: bool, runs: int = 1) -> list[tuple[str, str]]:
     """Mutual exclusion over the audit trail; per-group winner uniqueness; everybody-ran at quiescence."""
     m = by_ref(spec)
     id2ref = {f"W1-{r}": r for r in m}
@@ -149,7 +149,7 @@ def group_clauses(spec: dict[str, Any], audit: list[tuple[Any, ...]], got: dict[
         for r, s in m.items():
             if s.get("mutex") and not s.get("choice") and all(got["stages"].get(u) in oracles.CONTINUABLE for u in s["req"]):
                 for i, t in enumerate(s["tasks"]):
-                    if t.get("b", "ok") == "ok" and got["counts"].get(f"{r}.t{i}", 0) != 1 and got["stages"].get(r) != "CANCELED":
+                    if t.get("b", "ok") == "ok" and got["counts"].get(f"{r}.t{i}", 0) != runs and got["stages"].get(r) != "CANCELED":
                         viol.append(("mutex-sibling-did-not-run-once", f"{r}.t{i} executed {got['counts'].get(f'{r}.t{i}', 0)}x (stage {got['stages'].get(r)})"))
     return viol
 
@@ -313,6 +313,56 @@ def shard_gate_sweep(prop: str, tier: str, seed: int) -> dict[str, Any]:
     return c.export()
 
 
+def loop_mutex_specs(j: int) -> dict[str, dict[str, Any]]:
+    jt = lambda to: {"b": "jump", "to": to, "j": j, "emit": []}  # noqa: E731
+    return {
+        # holder and waiter in sequence inside the loop body: both are re-armed by the jump
+        "seq-loop": {"name": "seq-loop", "stages": [stage("a", [], [ok()], mutex="k"), stage("b", ["a"], [jt("a")], mutex="k"), stage("z", ["b"], [ok()])]},
+        # two mutex siblings inside the loop body
+        "par-loop": {"name": "par-loop", "stages": [stage("a", [], [ok()]), stage("c0", ["a"], [ok()], mutex="k"), stage("c1", ["a"], [ok(), ok()], mutex="k"),
+                                                    stage("r", ["c0", "c1"], [jt("a")]), stage("z", ["r"], [ok()])]},
+        # a self-looping holder beside a waiter
+        "self-loop": {"name": "self-loop", "stages": [stage("s", [], [ok()]), stage("a", ["s"], [jt("a")], mutex="k"), stage("w", ["s"], [ok()], mutex="k"),
+                                                      stage("z", ["a", "w"], [ok()])]},
+    }
+
+
+def shard_loop_mutex(prop: str, tier: str, seed: int, n: int) -> dict[str, Any]:
+    """Mutex stages re-armed by a jump loop: the claim of the previous iteration must not block the next one."""
+    c = Campaign(prop, tier, seed, LEVEL)
+
+    def one(name: str, j: int, sd: dict[str, Any]) -> None:
+        spec = loop_mutex_specs(j)[name]
+        run = Run(spec, make_schedule(sd), max_steps=1200)
+        run.drain()
+        got = run.outcome()
+        # every mutex stage of these specs sits inside the loop body (w of self-loop does not): it runs once per iteration
+        viol = [v for v in group_clauses(spec, run.w.audit(), got, final=not run.step_bound_hit, runs=j + 1) if not (name == "self-loop" and v[1].startswith("w."))]
+        if name == "self-loop" and not run.step_bound_hit and got["counts"].get("w.t0", 0) != 1:
+            viol.append(("mutex-sibling-did-not-run-once", f"w.t0 executed {got['counts'].get('w.t0', 0)}x"))
+        if run.step_bound_hit:
+            viol.append(("no-quiescence", f"still deliverable after {run.steps} deliveries; stages {got['stages']}"))
+        elif got["workflow"] != "SUCCEEDED":
+            viol.append((f"loop-not-finished|{oracles.diagnose_stuck(run)}", f"workflow {got['workflow']}; stages {got['stages']}; executions {got['counts']}"))
+        for clause, detail in viol:
+            c.violation(f"{clause}|loop-mutex", {"kind": "loop-mutex", "name": name, "j": j, "schedule": sd}, detail)
+        c.case(("c11l", name, j, sd), True, ["loop-mutex", f"loop-mutex:{name}"])
+
+    for name in loop_mutex_specs(1):
+        for j in (1, 2):
+            one(name, j, {"style": "fifo", "d": [], "R": 2})
+
+    @hseed(seed)
+    @settings(max_examples=n, database=None, deadline=None, derandomize=False, suppress_health_check=list(HealthCheck),
+              phases=[Phase.generate], report_multiple_bugs=False)
+    @given(st.sampled_from(sorted(loop_mutex_specs(1))), st.integers(1, 2), schedule_desc(max_len=60))
+    def t(name, j, sd):
+        one(name, j, sd)
+
+    t()
+    return c.export()
+
+
 def _dispatch(fn, a):  # noqa: ANN001
     return fn(*a)
 
@@ -339,6 +389,7 @@ def run(c: Campaign, jobs: int) -> None:
     shards = max(1, jobs)
     args += [(shard_schedules, (c.prop, c.tier, c.seed * 1000 + 700 + k, max(1, n // shards))) for k in range(shards)]
     args.append((shard_gate_sweep, (c.prop, c.tier, c.seed)))
+    args += [(shard_loop_mutex, (c.prop, c.tier, c.seed * 1000 + 800 + k, 20 if quick else 600)) for k in range(4)]
     run_shards(c, _dispatch, args, jobs)
     for n_ in names:
         tot = sum(v for k, v in c.extra.items() if k == f"schedules:{n_}")
